@@ -14,8 +14,9 @@ THEOREMS (coq/theories/C06/Property.v, closed under the global context):
   first (forallb), so a failure at ANY position k returns the input heap; replace_all_uses_with(replace_graph_outputs)
   is shown to be rejectable only at its first assignment (rau_ok); Value.name / initializers[k]=v need the invariant
   of C01 (an initializer has a name, no producer, and is stored under that name) to exclude their internal raise points.
-  C06_<site>_refuted x9          vm_compute witnesses (raise + changed observation) at SIOExtend SIOInsert SIOSetItem
-                                 SInitSetItem SNameEmpty SGExtend SGInsert SGraphNew and replace_all_uses_with(rgo)
+  C06_graphnew_refuted           the OPEN site (Graph(...) rejected midway), about current_cfg
+  C06_<site>_refuted_before_fix x8   raise + changed observation under original_cfg (the code before /repo c5c2382, dff454e) at
+                                 SIOExtend SIOInsert SIOSetItem SInitSetItem SNameEmpty SGExtend SGInsert, replace_all_uses_with(rgo)
 PARTIAL, what is missing: `in_scope` excludes Graph(...) with arguments; GSort's cycle rejection, rename_values and the
 other convenience functions are outside the model (oracle-only stream; GSort atomicity belongs to C12).
 
@@ -24,8 +25,9 @@ object the history ever created (a superset of the reachable ones), plus object 
 name-authority sets) is part of the model-side theorem only; a rejected call that corrupts only hidden state is still
 detected by the tie (hash of obs after later ops) and classified by the Coq-side `hit`.
 
-KNOWN FINDINGS: known_findings.d/C06.json (10 sites; 7 repaired by proposed_fixes/C01-*.diff, the Graph(...) constructor
-and the two non-transactional convenience functions are recorded without a patch).  Mutant M6 of c01.py is the C06
+KNOWN FINDINGS: known_findings.d/C06.json (10 sites; 7 repaired by /repo c5c2382 + dff454e = proposed_fixes/C01-*.diff,
+now status=fixed with their witnesses in corpus/C06; still known: the Graph(...) constructor and the two
+non-transactional convenience functions).  Mutant M6 of c01.py is the C06
 mutant (caught with a concrete replay).  Unchanged tree: exit 0 for VERIF_SEED 0..3.
 """
 
